@@ -551,6 +551,33 @@ def run_task(task):
     out["call"] = {"args": [_jsonable(a) for a in args[1:] if not callable(a)] if e["cat"] == "graph"
                    else [_jsonable(a) for a in args if not callable(a)], "kwargs": {k: _jsonable(v) for k, v in kw.items()}}
     old = np.seterr(all="ignore")
+    primed = False
+    if e["cat"] == "graph" and (si + len(name)) % 2 == 0:
+        # a history: the SAME Graph object was first used while it had another structure (a star plus an extra
+        # node), then edited in place into the scenario's graph.  Anything remembered per graph object is stale now.
+        G = args[0]
+        try:
+            nodes = list(G.nodes())
+            edges = list(G.edges(data=True))
+            if len(nodes) >= 2:
+                G.remove_edges_from(list(G.edges()))
+                extra = "__earlier_node__"
+                G.add_node(extra)
+                for v in nodes[1:]:
+                    G.add_edge(nodes[0], v)
+                G.add_edge(nodes[-1], extra)
+                try:
+                    fn(*args, **kw)
+                except Exception:
+                    pass
+                G.remove_node(extra)
+                G.remove_edges_from(list(G.edges()))
+                G.add_edges_from(edges)
+                primed = True
+        except Exception as ex:
+            out["machinery"] = "priming the graph object failed: %r" % (ex,)
+            return out
+    out["primed"] = primed
     try:
         ret = fn(*args, **kw)
     except Exception as ex:
